@@ -63,6 +63,12 @@ func processCallback[Type any, Status StatusType](
 		return nil
 	}
 
+	if wr.RunState.Stopped() {
+		// Paused, cancelled and data-deleted runs must be left alone, exactly as the step consumers and the
+		// timeout poller leave them alone.
+		return nil
+	}
+
 	run, err := buildRun[Type, Status](store, wr)
 	if err != nil {
 		return err
